@@ -806,6 +806,42 @@ def mk_elem(t, idx):
     return ('addr', ('pointee', t), (('i', idx),), False)
 
 
+def _def_err(t):
+    return t[0] == 'from_residual' or (t[0] == 'agg' and t[2] in ('core::result::Result::Err', 'core::option::Option::None'))
+
+
+def _def_ok(t):
+    return t[0] == 'agg' and t[2] in ('core::result::Result::Ok', 'core::option::Option::Some')
+
+
+def mk_okval(x):
+    """payload of the success variant of a Result/Option value that went through `?`: alternatives of a merge that are
+    definitely failures cannot reach the Continue arm"""
+    if x[0] == 'phi':
+        alts = [a for a in x[1] if not _def_err(a[1])]
+        if len(alts) == 1:
+            return mk_okval(alts[0][1])
+        if alts and len(alts) < len(x[1]):
+            return ('okval', ('phi', tuple(alts)))
+    if _def_ok(x) and len(x[3]) == 1:
+        return x[3][0]
+    return ('okval', x)
+
+
+def mk_residual(x):
+    """the failure carried out by `?`: a value that is itself the re-raised failure of an inner `?` (a helper that was
+    inlined) is that inner failure — `?` converts with the identity From<E> for E"""
+    if x[0] == 'phi':
+        alts = [a for a in x[1] if not _def_ok(a[1])]
+        if len(alts) == 1:
+            return mk_residual(alts[0][1])
+        if alts and len(alts) < len(x[1]):
+            return ('residual', ('phi', tuple(alts)))
+    if x[0] == 'from_residual' and x[1][0] == 'residual':
+        return x[1]
+    return ('residual', x)
+
+
 def project(v, path):
     for e in path:
         v = project1(v, e)
@@ -828,9 +864,9 @@ def project1(v, e):
             if name.isdigit() and int(name) < len(v[3]):
                 return v[3][int(name)]
         if v[0] == 'okval_variant':
-            return ('okval', v[1])
+            return mk_okval(v[1])
         if v[0] == 'residual_variant':
-            return ('residual', v[1])
+            return mk_residual(v[1])
         if v[0] == 'load':
             return ('load', v[1], v[2] + (e,))
         return ('field', name, v)
